@@ -236,6 +236,20 @@ pub fn c09_pre_in_body<S: Src>(s: &mut S) {
 }
 
 /// @harness props=C09:Q,C20:T n=3 err=Cheap timeout=900
+/// @shape atom.pratt(vec![ prefix(2,'-').boxed(), infix(left(1),'+').boxed() ])   [Vec table of boxed operators]   vs the textbook reading (= the tuple table of c09_pre_in)
+/// @symbolic input: 3 arbitrary bytes
+/// @aims tuple, Vec and boxed operator tables behave identically: the Vec impl tries the operators in declaration order through the dyn operator
+pub fn c09_vec_boxed_body<S: Src>(s: &mut S) {
+    let inp = Inp::<3>::any(s);
+    let x = inp.get();
+    let p = atom().pratt(vec![
+        prefix(2, just::<u8, I, X>(NEG), |o, r, _| pre(o, r)).boxed(),
+        infix(left(1), just::<u8, I, X>(PLUS), |l, o, r, _| bin(l, o, r)).boxed(),
+    ]);
+    against!(p, want_prefix_power(x, true), x);
+}
+
+/// @harness props=C09:Q,C20:T n=3 err=Cheap timeout=900
 /// @shape atom.pratt(( infix(left(1),'+'), postfix(3,'!') ))   vs the textbook reading of every input of length <= 3
 /// @symbolic input: 3 arbitrary bytes
 /// @aims postfix operators in the main loop (applied iff their power >= min_power), mixed with an infix operator
@@ -565,6 +579,7 @@ pub fn c09_unary_step_body<S: Src>(s: &mut S) {
 crate::harnesses! {
     c09_pre_in [5] = c09_pre_in_body;
     c09_in_post [5] = c09_in_post_body;
+    c09_vec_boxed [5] = c09_vec_boxed_body;
     c09_mixed3 [5] = c09_mixed3_body;
     c09_prefix_power [6] = c09_prefix_power_body;
     c09_two_infix [7] = c09_two_infix_body;
